@@ -8,6 +8,7 @@ pub mod clock;
 pub mod clocksys;
 pub mod clocktear;
 pub mod mixer;
+pub mod fxa;
 pub mod param;
 pub mod srate;
 pub mod system;
@@ -48,6 +49,7 @@ pub fn gen(suite: &str, rng: &mut Rng, n: usize, thorough: bool, stats: &mut Sta
 		"mixer" => mixer::gen(rng, n, thorough, stats, mixer::Mode::Flow),
 		"mixtrk" => mixer::gen(rng, n, thorough, stats, mixer::Mode::Tracks),
 		"mixpart" => mixer::gen(rng, n, thorough, stats, mixer::Mode::Partition),
+		"fxa" => fxa::gen(rng, n, thorough, stats),
 		_ => panic!("unknown suite {}", suite),
 	}
 }
@@ -73,6 +75,7 @@ pub fn run(suite: &str, ops: &[String]) -> Vec<String> {
 		"mixer" => mixer::run(ops, mixer::Mode::Flow),
 		"mixtrk" => mixer::run(ops, mixer::Mode::Tracks),
 		"mixpart" => mixer::run(ops, mixer::Mode::Partition),
+		"fxa" => fxa::run(ops),
 		_ => panic!("unknown suite {}", suite),
 	}
 }
